@@ -214,4 +214,54 @@ theorem scope_named_distinct {l : List Sib} (h : ScopeHyp l) {ds : List Edif.Dat
     rw [lower_eq, lower_eq, hab.idOf hi, hab'.idOf hi'] at hlow
     exact hfd.1 i i' hi hi' (lower i) (by simp [forms]) (by rw [hlow]; simp [forms])
 
+/-! ### the per-wire clauses of a bus cable (`CableWF.bus_ok`) -/
+
+theorem check_append {i t : Str} (hi : Spec.checkEdifIdentifier i = true) (ht : t.all okChar = true)
+    (hlen : (i ++ t).length ≤ 255) : Spec.checkEdifIdentifier (i ++ t) = true := by
+  have ht' : t.all Spec.idChar = true := by
+    rw [List.all_eq_true] at ht ⊢; intro x hx; rw [idChar_eq]; exact ht x hx
+  cases i with
+  | nil => simp [Spec.checkEdifIdentifier] at hi
+  | cons c r =>
+    simp only [List.cons_append, List.length_cons, List.length_append] at hlen
+    simp only [Spec.checkEdifIdentifier, List.cons_append] at hi ⊢
+    by_cases hc : (c == '&') = true
+    · rw [if_pos hc] at hi ⊢
+      simp only [Bool.and_eq_true, decide_eq_true_eq, List.length_cons] at hi
+      simp only [Bool.and_eq_true, decide_eq_true_eq, List.length_cons, List.length_append, List.all_append]
+      exact ⟨⟨by omega, by omega⟩, hi.2, ht'⟩
+    · rw [if_neg hc] at hi ⊢
+      simp only [Bool.and_eq_true, decide_eq_true_eq, List.length_cons] at hi
+      simp only [Bool.and_eq_true, decide_eq_true_eq, List.length_cons, List.length_append, List.all_append]
+      exact ⟨⟨by omega, hi.1.2⟩, hi.2, ht'⟩
+
+theorem bitSuffix_ok (k : Nat) : (bitSuffix k).all okChar = true := by
+  simp only [bitSuffix, List.all_append, all_okChar_digits (digits_toDigits k).2]
+  decide
+
+/-- the per-wire identifier is legal as soon as it is short enough (its characters always are) -/
+theorem bitIdent_legal {i : Str} (k : Nat) (hi : Spec.checkEdifIdentifier i = true)
+    (hlen : i.length + (Edif.natStr k).length + 2 ≤ 255) :
+    Edif.checkEdifIdentifier (Edif.bitIdent i k) = true := by
+  rw [checkEdifIdentifier_eq, bitIdent_eq, Names.bitIdent_eq]
+  apply check_append hi (bitSuffix_ok k)
+  simp only [List.length_append, bitSuffix, List.length_cons, List.length_nil, Edif.natStr] at hlen ⊢
+  omega
+
+theorem isStringChar_digit {c : Char} (h : c.isDigit = true) : Edif.isStringChar c = true := by
+  rw [isDigit_iff] at h
+  simp only [Edif.isStringChar, Bool.and_eq_true, bne_iff_ne, ne_eq, char_eq_iff_toNat, Char.reduceToNat]
+  omega
+
+/-- the per-wire name `name[k]` is a string token whenever the name is -/
+theorem bitName_quoteFree {name : Str} (k : Nat) (h : QuoteFree name) : QuoteFree (Edif.bitName name k) := by
+  unfold QuoteFree at *
+  have hd : (Edif.natStr k).all Edif.isStringChar = true := by
+    rw [List.all_eq_true]
+    intro c hc
+    exact isStringChar_digit ((digits_toDigits k).2 c hc)
+  have h1 : Edif.isStringChar '[' = true := by decide
+  have h2 : Edif.isStringChar ']' = true := by decide
+  simp only [Edif.bitName, List.all_append, List.all_cons, List.all_nil, h, hd, h1, h2, Bool.and_self]
+
 end Spydr.Names.Bridge
